@@ -13,23 +13,28 @@ package tuning
 // or overlap, whatever the step constants are.
 //
 //@ ghost tcur int
+//@ # tgo: the consumer has not asked to stop (the last call of yield, if any, returned true)
+//@ ghost tgo bool
 //@
 //@ func Batches$1
 //@   props C20
-//@   requires 0 <= numEntries && numEntries < 1<<61 && tcur == 0
+//@   requires 0 <= numEntries && numEntries < 1<<61 && tcur == 0 && tgo
 //@   callback-requires start == tcur && start < end && end <= numEntries
-//@   callback-modifies tcur
-//@   callback-ensures tcur == end
+//@   callback-modifies tcur, tgo
+//@   callback-ensures tcur == end && tgo == result
+//@   # unless the consumer stops the iteration, the ranges handed over reach the end of the interval
+//@   ensures [complete] implies(tgo, tcur == numEntries)
 //@   nopanic
-//@   loop 1: invariant 0 <= start && start < 1<<62 && (start == tcur || (tcur == numEntries && start >= numEntries))
-//@   loop 1: modifies tcur
+//@   loop 1: invariant 0 <= start && start < 1<<62 && (start == tcur || (tcur == numEntries && start >= numEntries)) && tcur <= numEntries && tgo
+//@   loop 1: modifies tcur, tgo
 //@
 //@ func Chunks$1
 //@   props C20
-//@   requires 0 <= batch.Start && batch.Start <= batch.End && batch.End < 1<<61 && tcur == batch.Start
+//@   requires 0 <= batch.Start && batch.Start <= batch.End && batch.End < 1<<61 && tcur == batch.Start && tgo
 //@   callback-requires start == tcur && start < end && end <= batch.End
-//@   callback-modifies tcur
-//@   callback-ensures tcur == end
+//@   callback-modifies tcur, tgo
+//@   callback-ensures tcur == end && tgo == result
+//@   ensures [complete] implies(tgo, tcur == batch.End)
 //@   nopanic
-//@   loop 1: invariant batch.Start <= start && start < 1<<62 && (start == tcur || (tcur == batch.End && start >= batch.End))
-//@   loop 1: modifies tcur
+//@   loop 1: invariant batch.Start <= start && start < 1<<62 && (start == tcur || (tcur == batch.End && start >= batch.End)) && tcur <= batch.End && tgo
+//@   loop 1: modifies tcur, tgo
